@@ -9,7 +9,12 @@ from vlib.coqfmt import cfloat, cnat, clist, cpair, copt
 
 ENV_BY_TIER = {"quick": {"NUMBA_DISABLE_JIT": "1"}, "thorough": {}}
 
-RULE = ("(a) reallocate_unphased called directly on generated arrays: 2-12 edges, 0-4 blocks (pairs of distinct "
+RULE = ("(0) sites on tree breakpoints: diploid msprime inputs with several trees get singletons (and non-singleton "
+        "mutations) at positions EQUAL to interior breakpoints, preferring breakpoints where the edge above the carrier "
+        "changes; used by a direct stream (block_singletons + count_mutations + reallocate_unphased with random phases) "
+        "and by half of the infer() stream; each singleton's two candidate branches are recomputed at its position "
+        "with the tskit Tree API and must be exactly the block it is credited to; "
+        "(a) reallocate_unphased called directly on generated arrays: 2-12 edges, 0-4 blocks (pairs of distinct "
         "edges, edges may be shared between blocks), singleton phases dyadic / arbitrary / 0 / 1 / NaN / out of "
         "range, counts consistent with the singletons or not; (b) ExpectationPropagation.infer on msprime diploid "
         "inputs (1-4 individuals, with and without internal samples; 40% decorated by gen.exotic: renumbered nodes, "
@@ -150,8 +155,162 @@ def direct(ctx, model_ok):
 
 
 # ---------------------------------------------------------------- (b) infer()
+# ---------------------------------------------------------------- sites on tree breakpoints
+def breakpoint_sites(rng, ts):
+    """valid inputs simulators rarely give: a site at position x belongs to the tree whose interval is
+    [x, ...).  Adds a few singletons (and a few non-singleton mutations) at positions EQUAL to interior
+    breakpoints, preferring breakpoints at which the edge above the carrier sample changes."""
+    import tskit
+    taken = set(float(x) for x in ts.sites_position)
+    samples = [int(u) for u in ts.samples()]
+    changed, plain, inner = [], [], []
+    prev = None
+    for tree in ts.trees():
+        x = float(tree.interval.left)
+        if prev is not None and x not in taken:
+            for u in samples:
+                if tree.edge(u) != -1:
+                    (changed if tree.edge(u) != prev[u] else plain).append((x, u))
+            for v in tree.nodes():
+                if tree.num_samples(v) >= 2 and tree.parent(v) != -1:
+                    inner.append((x, v))
+        prev = {u: tree.edge(u) for u in samples}
+    rng.shuffle(changed)
+    rng.shuffle(plain)
+    rng.shuffle(inner)
+    picks = changed[: rng.randint(1, 4)] + plain[: rng.randint(0, 1)] + inner[: rng.randint(0, 2)]
+    tables = ts.dump_tables()
+    added = 0
+    for x, u in picks:
+        if x in taken:
+            continue
+        taken.add(x)
+        si = tables.sites.add_row(position=x, ancestral_state="0")
+        tables.mutations.add_row(site=si, node=u, derived_state="1", time=tskit.UNKNOWN_TIME)
+        added += 1
+    if not added:
+        return ts, 0
+    tables.sort()
+    tables.build_index()
+    tables.compute_mutation_parents()
+    return tables.tree_sequence(), added
+
+
+def bp_ts(rng):
+    """diploid msprime input with several trees and sites sitting exactly on breakpoints"""
+    from vlib import gen
+    L = rng.choice([20, 100, 100])
+    ts = gen.sim_ts(rng, n=rng.randint(1, 3), L=L, ploidy=2, rec=rng.choice([2.0, 5.0, 10.0]) / L,
+                    historical=False, multimerger=False, mu=rng.choice([1.0, 3.0, 10.0]) / L)
+    ts, added = breakpoint_sites(rng, ts)
+    return ts, added
+
+
+def candidate_edges(ts):
+    """per mutation: the edges above the two genomes of the carrier's individual AT THE SITE
+    (tskit Tree API), or None when the carrier has no diploid individual"""
+    import tskit
+    out = [None] * ts.num_mutations
+    tree = tskit.Tree(ts)
+    for site in ts.sites():
+        tree.seek(site.position)
+        for m in site.mutations:
+            ind = ts.node(m.node).individual
+            if ind < 0:
+                continue
+            nodes = [int(u) for u in ts.individual(ind).nodes]
+            if len(nodes) != 2 or m.node not in nodes:
+                continue
+            other = nodes[0] if nodes[1] == m.node else nodes[1]
+            out[m.id] = (int(tree.edge(m.node)), int(tree.edge(other)))
+    return out
+
+
+def check_block_edges(ctx, ts, blocks, be, rp, where):
+    """every singleton's block must consist of the two branches that cover ITS site"""
+    cands = candidate_edges(ts)
+    for m in np.flatnonzero(np.asarray(blocks) != -1):
+        c = cands[int(m)]
+        if c is None or -1 in c:
+            ctx.tally("singleton-without-two-branches")
+            continue
+        got = set(int(e) for e in be[blocks[m]])
+        if got != set(c):
+            x = float(ts.sites_position[ts.mutations_site[m]])
+            ctx.oracle_fail("block-not-at-site:" + where,
+                            "singleton %d at position %r: its individual's two branches at the site are edges %r, but it is "
+                            "credited to edges %r (edge intervals %r)" % (
+                                int(m), x, sorted(c), sorted(got),
+                                [[float(ts.edges_left[e]), float(ts.edges_right[e])] for e in sorted(got)]), rp)
+            return False
+    return True
+
+
+def direct_ts_case(rng):
+    ts, added = bp_ts(rng)
+    applied = []
+    if rng.random() < 0.4:
+        ts, applied = E.decorate(rng, ts, force=True)
+    return {"ts": E.ts_dict(E.ts_of(E.ts_dict(ts))), "kind": "bp-direct", "exotic": applied, "bp_sites": added,
+            "size_biased": rng.random() < 0.5, "pseed": rng.randrange(1 << 30)}
+
+
+def run_direct_ts(ctx, c):
+    """block_singletons + count_mutations + reallocate_unphased on a tree sequence, with random phases;
+    credited counts are checked against the branches that cover each singleton's site"""
+    import random
+    import tsdate.phasing as P
+    import tsdate.rescaling as R
+    ts = E.case_ts(c)
+    rp = {"direct_ts": c}
+    try:
+        _bl, be, blocks = P.block_singletons(ts, np.full(ts.num_individuals, True))
+    except (ValueError, AssertionError):
+        return None
+    be = np.asarray(be).reshape(-1, 2)
+    blocks = np.asarray(blocks)
+    L0 = np.array(R.count_mutations(ts, size_biased=c["size_biased"])[0], dtype=float)
+    prng = random.Random(c["pseed"])
+    phase = np.array([prng.choice([prng.random(), prng.randint(0, 8) / 8.0]) if b != -1 else 1.0 for b in blocks], dtype=float)
+    lik = np.ascontiguousarray(L0.copy())
+    ns = int(np.sum(blocks != -1))
+    if not check_block_edges(ctx, ts, blocks, be, rp, "direct"):
+        return ns
+    try:
+        P.reallocate_unphased(lik, phase, blocks.astype(np.int32), be.astype(np.int32))
+    except AssertionError:
+        ctx.tally("direct-ts-realloc-assert")     # lone-edge stretches (K8 of C24): not judged here
+        return ns
+    exp = expected_counts([float(x) for x in L0[:, 0]], be.tolist(), [int(b) for b in blocks], phase.tolist())
+    unph = set(int(e) for e in be.flatten())
+    for e in range(len(L0)):
+        bad = (lik[e, 0] != L0[e, 0]) if e not in unph else abs(lik[e, 0] - float(exp[e])) > 1e-12 * max(1.0, float(exp[e]))
+        if bad:
+            ctx.oracle_fail("wrong-credit:direct-ts", "edge %d: %r, expected %r" % (e, lik[e, 0], float(exp[e])), rp)
+            break
+    return ns
+
+
+def direct_ts(ctx, n):
+    for _ in range(n):
+        c = direct_ts_case(ctx.rng)
+        ns = run_direct_ts(ctx, c)
+        ctx.case({"kind": c["kind"], "bp_sites": c["bp_sites"], "exotic": c["exotic"], "singletons": ns,
+                  "nodes": len(c["ts"]["nodes_time"]), "edges": len(c["ts"]["edges"])},
+                 nontrivial=bool(ns) and c["bp_sites"] > 0, kind="bp-direct")
+        ctx.tally("sites-on-breakpoints", c["bp_sites"])
+
+
 def infer_case(rng):
-    c = E.make_case(rng, kind=rng.choice(["diploid", "diploid", "diploid", "dip-internal"]))
+    if rng.random() < 0.5:
+        ts, added = bp_ts(rng)
+        applied = []
+        if rng.random() < 0.4:
+            ts, applied = E.decorate(rng, ts, force=True)
+        c = {"ts": E.ts_dict(E.ts_of(E.ts_dict(ts))), "kind": "diploid-bp", "opts": E.make_opts(rng), "exotic": applied,
+             "bp_sites": added}
+    else:
+        c = E.make_case(rng, kind=rng.choice(["diploid", "diploid", "diploid", "dip-internal"]))
     o = c["opts"]
     o["singletons_phased"] = False
     o["iterations"] = rng.choice([1, 2, 5])
@@ -230,6 +389,8 @@ def oracle_infer(ctx, case, obs):
     rp = {"case": case}
     blocks = np.array(ep.mutation_blocks)
     sing = np.flatnonzero(blocks != -1)
+    if len(sing) and not check_block_edges(ctx, obs["ts"], blocks, np.array(ep.block_edges).reshape(-1, 2), rp, "infer"):
+        return
     if obs["realloc"] is None:
         return
     if isinstance(obs["realloc"]["after"], str):
@@ -357,6 +518,7 @@ def infer_runs(ctx, model_ok, n):
             ctx.tally("exotic-" + k)
         if c["opts"].get("twice"):
             ctx.tally("infer-called-twice")
+        ctx.tally("sites-on-breakpoints", c.get("bp_sites", 0))
         ctx.tally("singletons-placed-on-second-edge", second)
         if obs["error"]:
             ctx.tally("infer-raised-" + obs["error"].split(":")[0])
@@ -368,6 +530,7 @@ def infer_runs(ctx, model_ok, n):
 
 def run(ctx, model_ok=True):
     direct(ctx, model_ok)
+    direct_ts(ctx, ctx.n(60, 500))
     infer_runs(ctx, model_ok, ctx.n(40, 300))
 
 
@@ -375,6 +538,10 @@ def search(ctx):
     for _ in range(ctx.n(300, 1500)):
         c = direct_case(ctx.rng)
         oracle_direct(ctx, c, run_direct(c))
+        if ctx.oracle_fails:
+            return
+    for _ in range(ctx.n(200, 1000)):
+        run_direct_ts(ctx, direct_ts_case(ctx.rng))
         if ctx.oracle_fails:
             return
     for _ in range(ctx.n(100, 500)):
@@ -389,7 +556,9 @@ def search(ctx):
 def replay(ctx, data):
     payload = data["case"]
     before = len(ctx.oracle_fails)
-    if "direct" in payload:
+    if "direct_ts" in payload:
+        run_direct_ts(ctx, payload["direct_ts"])
+    elif "direct" in payload:
         c = payload["direct"]
         oracle_direct(ctx, c, run_direct(c))
     else:
